@@ -31,7 +31,7 @@ KINDS = [
 INVALID_ELEMS = [1, {}, {'jsonrpc': '2.0', 'method': 1, 'id': 7}, {'jsonrpc': '2.0', 'method': 'ok', 'params': None, 'id': 8},
                  {'jsonrpc': '2.0', 'method': 'ok', 'params': 0}]
 ID_ALPHABET = [1, '1', 0, '', -1, '__absent__', None]
-DISPS = ['sync', 'async', 'async-seq', 'async-wrapped', 'sync-custom', 'async-custom', 'sync-mw', 'async-mw']
+DISPS = ['sync', 'async', 'async-seq', 'async-wrapped', 'sync-custom', 'async-custom', 'sync-mw', 'async-mw', 'async-conc2', 'sync-pd', 'async-pd']
 
 
 def elem(kind, id):
@@ -76,15 +76,23 @@ def gen_cases(ctx):
                         yield dict(part='b', disp=disp, mbs=None, doc=doc)
     # (d) equal-valued arguments of different JSON types in one batch (1 / 1.0 / true, 0 / 0.0 / false, "1", nested): each element
     #     must be executed with - and answered from - its OWN arguments
-    typed = [[1], [1.0], [True], [0], [0.0], [False], ['1'], [[1]], [[1.0]], [[True]], {'a': 1}, {'a': 1.0}, {'a': True}, [1, 0], [1.0, False]]
+    typed = [[1], [1.0], [True], [0], [0.0], [False], ['1'], [[1]], [[1.0]], [[True]], {'a': 1}, {'a': 1.0}, {'a': True}, [1, 0], [1.0, False],
+             [None], {'a': None}, [None, None], {'b': None}]
     for n in range(1, ctx.pick(3, 3) + 1):
-        for seq in itertools.product(range(len(typed)), repeat=n):
+        for seq in itertools.product(range(len(typed) if (n <= 2 or not ctx.quick) else 8), repeat=n):
             doc = [elem(('t', 'ok', typed[t]), pos + 1) for pos, t in enumerate(seq)]
-            for disp in DISPS[:4]:
+            for disp in DISPS[:4] + ['sync-pd', 'async-pd']:
                 yield dict(part='d', disp=disp, mbs=None, doc=doc)
     for disp in DISPS:
         for route in ('registry.add', 'registry.merge', 'dispatcher.add', 'dispatcher.add_methods'):
             yield dict(part='late', disp=disp, route=route)
+    # (g) deeply nested arguments echoed back (the response has to be serialised again): depths around the interpreter limits
+    for depth in (100, 500, 900, 990, 1000, 1005, 1100, 1400, 1490):
+        for o, c in (('[', ']'), ('{"a":', '}')):
+            for disp in DISPS[:4]:
+                # (the nested value itself is built when the case runs: cases travel between processes)
+                yield dict(part='g', disp=disp, mbs=None, deep=[depth, o, c, 'single'])
+                yield dict(part='g', disp=disp, mbs=None, deep=[depth, o, c, 'batch'])
     # (e) long batches: lengths around powers of two and other round numbers (chunking / slicing thresholds), a few patterns each
     for L in (5, 8, 16, 17, 31, 32, 33, 50, 63, 64, 65, 100, 127, 128, 129, 255, 256, 257, 500, 1000, 1001):
         for pattern in ('calls', 'alternate', 'last-fails', 'notifs-then-call'):
@@ -171,7 +179,13 @@ def run_late(case, rec):
 def run_case(case, rec):
     if case['part'] == 'late':
         return run_late(case, rec)
-    disp, mbs, doc = case['disp'], case['mbs'], case['doc']
+    if 'deep' in case:
+        depth, o_, c_, shape = case['deep']
+        nest = json.loads(o_ * depth + '1' + c_ * depth)
+        doc = elem(('deep', 'ok', [nest]), 1) if shape == 'single' else [elem(('deep', 'ok', {'b': nest}), 1), elem(('deep', 'ok', [1]), 2)]
+    else:
+        doc = case['doc']
+    disp, mbs = case['disp'], case['mbs']
     text = json.dumps(doc)
     s = Sys(disp, TABLE, max_batch_size=mbs)
     o = observe(s, text)
@@ -192,6 +206,9 @@ def run_case(case, rec):
         return obs_key(o)
 
     alts = ref.expected(doc, TABLE, max_batch_size=mbs)
+    if 'deep' in case:
+        # L5: a document nested deeper than the interpreter can parse may be refused as a whole (nothing executed)
+        alts = alts + [(dict(id=None, code=c_, exact=None), []) for c_ in (-32700, -32600)]
     problems = ref.match_any(o['answer'], o['calls'], alts)
     if problems is not None:
         p = problems[-1]
@@ -205,8 +222,8 @@ def run_case(case, rec):
     # compositionality: an accepted batch equals its elements sent alone, in order
     accepted = isinstance(doc, list) and doc and all(request_object_class(e) != INVALID for e in doc) \
         and not ref.ids_duplicate(doc) and not (mbs and len(doc) > mbs) and mbs != 0
-    if accepted and case['part'] == 'e':
-        rec.nontrivial_n += 1         # long batches are judged by the reference model only
+    if accepted and case['part'] in ('e', 'g'):
+        rec.nontrivial_n += 1         # long batches / deep documents are judged by the reference model only
     elif accepted:
         rec.nontrivial_n += 1
         singles, calls = [], []
